@@ -97,11 +97,33 @@ class Expected:
     pass
 
 
-def expected(report):
+def requested_tables(requested):
+    """The suppression tables as the documentation of suppress() defines them, built from what the instructor ASKED for
+    (not read back from the report): a category is case-insensitive and may be a tool-name alias; with a category the label is
+    case-insensitive; without one the label is taken as given; no label means the whole category."""
+    sup, suplab = {}, {}
+    for s in requested:
+        fields = dict(s.get('fields') or {})
+        if s.get('category') is None:
+            suplab.setdefault(s.get('label', True), []).append(fields)
+        else:
+            cat = s['category'].lower()
+            cat = ALIASES.get(cat, cat)
+            label = s.get('label', True)
+            if isinstance(label, str):
+                label = label.lower()
+            sup.setdefault(cat, {}).setdefault(label, []).append(fields)
+    return sup, suplab
+
+
+def expected(report, requested=None):
     """Compute the expected outcome of resolving `report`."""
     fbs = list(report.feedback) + list(report.ignored_feedback)
     triggered = list(report.feedback)
-    sup, suplab = report.suppressions, report.suppressed_labels
+    if requested is None:
+        sup, suplab = report.suppressions, report.suppressed_labels
+    else:
+        sup, suplab = requested_tables(requested)
     e = Expected()
     e.status = {}
     eligible = []
@@ -178,10 +200,10 @@ def round2(fr):
     return Fraction(fl + (1 if rem > Fraction(1, 2) else 0), 100)
 
 
-def check(report, final, which=('C01', 'C02', 'C03')):
+def check(report, final, which=('C01', 'C02', 'C03'), requested=None):
     """Compare a FinalFeedback with the model. Returns list of (prop, key, detail).
     Raises Unmodelled when the report is outside the statement."""
-    e = expected(report)
+    e = expected(report, requested)
     out = []
     if 'C01' in which:
         if e.winner is None:
